@@ -436,10 +436,10 @@ func (r *AmqpReader) parseHeaderFrame(channel uint16, size uint32) (frame frame,
 func (r *AmqpReader) parseBodyFrame(channel uint16, size uint32) (frame frame, err error) {
 	bf := &BodyFrame{
 		ChannelId: channel,
-		Body:      make([]byte, size),
 	}
 
-	if _, err = io.ReadFull(r.R, bf.Body); err != nil {
+	// The body is read as far as the stream goes: the declared size alone allocates nothing.
+	if bf.Body, err = readBytes(r.R, int64(size)); err != nil {
 		bf.Body = nil
 		return nil, err
 	}
